@@ -288,7 +288,7 @@ type Scenario struct {
 	// OnVerify, if set, is called (outside mu) on every Verify with the receiver.
 	OnVerify func(c *Cfg)
 	// Hook, if set, is called at every dials hook point of this scenario.
-	Hook func(name string, args []any)
+	Hook func(name string, ctx context.Context, args []any)
 
 	dset atomic.Bool
 	// monInEnable: the monitor's latest received message was an
@@ -378,7 +378,7 @@ func InstallHooks() {
 				}
 			}
 			if h := s.Hook; h != nil {
-				h(name, args[1:])
+				h(name, ctx, args[1:])
 			}
 		})
 	})
